@@ -43,6 +43,8 @@ FILES = {
 Q_FILES = ['moov', 'enc-moov', 'hevc-moov', 'eac3-moov', 'ebuttd', 'webvtt', 'tseg', 'aseg',
            'tseg-tfdt-v0', 'tseg-tfhd-both', 'tseg-tfhd-all', 'tseg-trun-all', 'tseg-trun-first', 'moov-v1',
            'emsg-boxes', 'aac-init', 'aac-esds-ocr', 'aac-esds-all']
+# thorough tier: sized by wall time (whole multi-megabyte fixture files ran past 30 minutes)
+T_FILES = Q_FILES + ['enc-seg', 'seg1', 'webvtt', 'emsg']
 MAX_SYMBOLIC = 1500       # symbolic bytes per file (the first N content bytes; mdat tails stay concrete)
 
 ASSUMPTIONS = [
@@ -55,7 +57,7 @@ OUTSIDE = ['box structures that do not occur in the fixture files', 'non-ASCII t
 
 
 def bounds(tier):
-    return {'files': Q_FILES if tier == 'quick' else list(FILES), 'max_symbolic_bytes_per_file': MAX_SYMBOLIC,
+    return {'files': Q_FILES if tier == 'quick' else list(dict.fromkeys(T_FILES)), 'max_symbolic_bytes_per_file': MAX_SYMBOLIC,
             'edits': ['assign field', 'insert_child', 'append_child', 'remove_child', 'del child']}
 
 
@@ -626,7 +628,7 @@ def _apply_edit(sx, t, edit, concrete):
 
 
 def instances(tier):
-    files = Q_FILES if tier == 'quick' else list(FILES)
+    files = Q_FILES if tier == 'quick' else [f for f in dict.fromkeys(T_FILES)]
     out = []
     for name in files:
         out.append({'name': f'roundtrip[{name}]', 'fn': h_roundtrip, 'params': {'name': name}, 'weight': 3,
